@@ -19,7 +19,8 @@ struct Ledger {
   std::unordered_map<void*, Info> live;
   uint64_t serial = 0, n_alloc = 0, n_free = 0, bytes_live = 0;
   std::vector<std::string> errors;
-  bool fail_next = false;  // (unused by default) allocation failure injection
+  int fail_budget = 0;     // allocation failure injection: the next `fail_budget` requests are refused
+  uint64_t refusals = 0;
   void reset() {
     // forget everything; blocks that a previous (failing) case left behind are released for real so that they do not
     // show up as leaks of a later case
@@ -27,9 +28,16 @@ struct Ledger {
     live.clear();
     errors.clear();
     serial = n_alloc = n_free = bytes_live = 0;
+    fail_budget = 0;
+    refusals = 0;
   }
   void* alloc(size_t n) {
     if (n == 0) return nullptr;
+    if (fail_budget > 0) {
+      fail_budget--;
+      refusals++;
+      return nullptr;
+    }
     void* p = std::malloc(n);
     if (!p) return nullptr;
     std::memset(p, 0xA5, n);  // uninitialised-looking, deterministic
